@@ -136,3 +136,48 @@ def shared_table_aliasing(ctx, attrs, what):
                       '%s' % (U(bad)[:70] if bad is not None else '', what),
                       where=where(f, node))
     return n
+
+
+def exception_identity(ctx, module_names, rid):
+    """python-socketio defines exceptions whose names coincide with builtin
+    ones (ConnectionError, ConnectionRefusedError, TimeoutError).  The server
+    catches, and applications are told to catch, the PACKAGE's classes: a
+    bare name that is not imported from the exceptions module silently binds
+    to the builtin of the same name, which none of those handlers catch.
+    Rule: in the given modules every bare use (raise / except / call) of
+    such a name resolves, through the module's imports or definitions, to
+    socketio.exceptions."""
+    import builtins
+    m = ctx.model
+    exc_mod = m.modules.get('exceptions')
+    if exc_mod is None:
+        raise AnalysisError(rid + ': socketio/exceptions.py not found')
+    shadow = {n for n in exc_mod.classes if hasattr(builtins, n)}
+    if not shadow:
+        ctx.info('no package exception shadows a builtin: nothing to check')
+        return
+    n_sites = 0
+    for mn in module_names:
+        mod = m.modules.get(mn)
+        if mod is None:
+            raise AnalysisError('%s: module %s not found' % (rid, mn))
+        for node in ast.walk(mod.tree):
+            if not (isinstance(node, ast.Name) and node.id in shadow and
+                    isinstance(node.ctx, ast.Load)):
+                continue
+            n_sites += 1
+            target = mod.imports.get(node.id, '')
+            ok = (target.endswith('exceptions:' + node.id) or
+                  node.id in mod.classes or node.id in mod.globals)
+            ctx.check(ok, 'module %s' % mn, '%s at line %d is the package\'s '
+                      'exception class' % (node.id, node.lineno),
+                      key='builtin-exception ' + node.id,
+                      reason='%s at line %d is not imported from '
+                      'socketio.exceptions in %s.py: the name binds to the '
+                      'BUILTIN %s, which is not a subclass of the package\'s '
+                      'class - the server\'s `except exceptions.%s` (and an '
+                      'application\'s `except socketio.exceptions.%s`) does '
+                      'not catch it' % (node.id, node.lineno, mn, node.id,
+                                        node.id, node.id),
+                      where='%s:%d' % (mod.relpath, node.lineno), rid=rid)
+    return n_sites
